@@ -15,6 +15,7 @@ import (
 	"fmt"
 	"net/http"
 	"net/http/httptest"
+	"net/url"
 	"strings"
 	"sync"
 	"time"
@@ -53,6 +54,15 @@ type StateFile struct {
 	TxnMax, TxnMaxQueried int64
 	// TxnActive / TxnReady are the txnActiveList / txnReadyList entries (may be empty).
 	TxnActive, TxnReady []int64
+	// Order selects the key order of a properties state file (java.util.Properties has no
+	// fixed order): 0 the order of the library's example, 1 the order of the planet's minute
+	// files (timestamp last, after the long txnActiveList line), 2 timestamp first, larger
+	// values a permutation derived from the value.
+	Order int
+	// Extra are further lines of a properties file: unknown keys, comments, blank lines.
+	Extra []string
+	// CRLF terminates the lines of a properties file with \r\n (allowed by the format).
+	CRLF bool
 	// YamlSeqSame: the sequence line of a changeset state file repeats the file's own number
 	// (the earliest planet files) instead of being one less (the planet's consistent mistake).
 	YamlSeqSame bool
@@ -80,7 +90,8 @@ func (d *Dir) Get(n uint64) (StateFile, bool) {
 
 // Req is one logged request.
 type Req struct {
-	Path   string `json:"path"`
+	Path   string `json:"path"`          // decoded path (+ ?query)
+	Raw    string `json:"raw,omitempty"` // request URI as received, when it differs from Path
 	Status int    `json:"status"`
 }
 
@@ -94,6 +105,8 @@ type Planet struct {
 
 	mu         sync.Mutex
 	dir        *Dir
+	decPrefix  string            // Prefix with its percent escapes decoded
+	bodies     map[uint64][]byte // rendered state files of dir (they can be 64 KiB)
 	budget     int
 	count      int
 	log        []Req
@@ -117,8 +130,15 @@ func (p *Planet) BaseURL() string { return p.Server.URL + p.Prefix }
 // Load installs a directory and a request budget, and clears the request log.
 func (p *Planet) Load(d *Dir, budget int, prefix string) {
 	p.mu.Lock()
+	if p.dir != d {
+		p.bodies = map[uint64][]byte{}
+	}
 	p.dir, p.budget, p.count = d, budget, 0
 	p.Prefix = prefix
+	p.decPrefix = prefix
+	if dec, err := url.PathUnescape(prefix); err == nil {
+		p.decPrefix = dec
+	}
 	p.log = p.log[:0]
 	p.unexpected = nil
 	p.seqSeen = map[uint64]int{}
@@ -169,7 +189,11 @@ func (p *Planet) handle(w http.ResponseWriter, r *http.Request) {
 	status, body := p.answer(r, path)
 	p.count++
 	if len(p.log) < 4096 {
-		p.log = append(p.log, Req{Path: path, Status: status})
+		rq := Req{Path: path, Status: status}
+		if r.RequestURI != path {
+			rq.Raw = r.RequestURI
+		}
+		p.log = append(p.log, rq)
 	}
 	if body == nil {
 		// no body at all: keeps the client's connection reusable even when the caller does
@@ -201,7 +225,7 @@ func (p *Planet) answer(r *http.Request, path string) (int, []byte) {
 	if r.Method != http.MethodGet {
 		return bad("method")
 	}
-	root := p.Prefix + "/replication/" + d.Stream + "/"
+	root := p.decPrefix + "/replication/" + d.Stream + "/"
 	if !strings.HasPrefix(path, root) {
 		return bad("unexpected path")
 	}
@@ -230,7 +254,12 @@ func (p *Planet) answer(r *http.Request, path string) (int, []byte) {
 		if !ok {
 			return http.StatusNotFound, nil
 		}
-		return http.StatusOK, RenderState(d.Stream, n, st, false)
+		if b, ok := p.bodies[n]; ok {
+			return http.StatusOK, b
+		}
+		b := RenderState(d.Stream, n, st, false)
+		p.bodies[n] = b
+		return http.StatusOK, b
 	case strings.HasSuffix(rest, dataExt):
 		n, ok := parseSeqPath(strings.TrimSuffix(rest, dataExt))
 		if !ok {
@@ -277,15 +306,52 @@ func RenderState(stream string, n uint64, st StateFile, current bool) []byte {
 		return b.Bytes()
 	}
 	t := st.Time.UTC()
-	// the comment line is the (later) wall-clock time the file was written at
-	fmt.Fprintf(&b, "#%s\n", t.Add(61*time.Second).Format("Mon Jan 02 15:04:05 UTC 2006"))
+	seqL := fmt.Sprintf("sequenceNumber=%d", n)
+	tsL := "timestamp=" + RenderTime(t, FmtProps)
+	lines := []string{seqL, tsL}
 	if st.Txn {
-		fmt.Fprintf(&b, "txnMaxQueried=%d\n", st.TxnMaxQueried)
+		q := fmt.Sprintf("txnMaxQueried=%d", st.TxnMaxQueried)
+		ready := "txnReadyList=" + joinInts(st.TxnReady)
+		max := fmt.Sprintf("txnMax=%d", st.TxnMax)
+		active := "txnActiveList=" + joinInts(st.TxnActive)
+		switch st.Order {
+		case 0:
+			lines = []string{q, seqL, tsL, ready, max, active}
+		case 1:
+			lines = []string{seqL, q, active, ready, max, tsL}
+		case 2:
+			lines = []string{tsL, active, seqL, max, ready, q}
+		default:
+			lines = []string{q, seqL, tsL, ready, max, active}
+		}
+	} else if st.Order == 2 || st.Order%2 == 1 {
+		lines = []string{tsL, seqL}
 	}
-	fmt.Fprintf(&b, "sequenceNumber=%d\n", n)
-	fmt.Fprintf(&b, "timestamp=%s\n", RenderTime(t, FmtProps))
-	if st.Txn {
-		fmt.Fprintf(&b, "txnReadyList=%s\ntxnMax=%d\ntxnActiveList=%s\n", joinInts(st.TxnReady), st.TxnMax, joinInts(st.TxnActive))
+	if st.Order > 2 { // a permutation derived from Order
+		x := uint64(st.Order) * 0x9E3779B97F4A7C15
+		for i := len(lines) - 1; i > 0; i-- {
+			x ^= x >> 29
+			x *= 0xBF58476D1CE4E5B9
+			j := int(x >> 33 % uint64(i+1))
+			lines[i], lines[j] = lines[j], lines[i]
+		}
+	}
+	// extra lines go between the keys, the first after the second key
+	for i, e := range st.Extra {
+		at := 2 + i
+		if at > len(lines) {
+			at = len(lines)
+		}
+		lines = append(lines[:at], append([]string{e}, lines[at:]...)...)
+	}
+	nl := "\n"
+	if st.CRLF {
+		nl = "\r\n"
+	}
+	// the comment line is the (later) wall-clock time the file was written at
+	b.WriteString("#" + t.Add(61*time.Second).Format("Mon Jan 02 15:04:05 UTC 2006") + nl)
+	for _, l := range lines {
+		b.WriteString(l + nl)
 	}
 	return b.Bytes()
 }
